@@ -294,7 +294,7 @@ class C11Machine(RecordingMixin, RuleBasedStateMachine):
             if "pred" in ps:
                 p = ps["pred"]
                 ok = (p[0] == "max-le") or (p[0] == "mode-ne" and p[1] < n) or \
-                     (p[0] == "total-in" and all(m < n for m in p[1]))
+                     (p[0] == "total-in" and all(m < n for m in p[1])) or (p[0] == "state-api" and p[2] < n)
             if not ok:
                 ps = None
         self.ps = ps
